@@ -460,7 +460,9 @@ def op_meta(art):
                 kk, pp = npu_op.kernel, npu_op.padding
                 if kk is not None and pp is not None and npu_op.ifm is not None and int(npu_op.ifm_upscale.value if hasattr(npu_op.ifm_upscale, "value") else 0) in (0, 1):
                     hw_w = (int(npu_op.ofm.shape.width) - 1) * int(kk.stride_x) + (int(kk.width) - 1) * int(kk.dilation_x) + 1 - int(pp.left) - int(pp.right)
-                    m.update(hw_ifm_w=hw_w, box_ifm_w=int(npu_op.ifm.shape.width), ifm_width0=int(npu_op.ifm.tiles.width_0))
+                    hw_h = (int(npu_op.ofm.shape.height) - 1) * int(kk.stride_y) + (int(kk.height) - 1) * int(kk.dilation_y) + 1 - int(pp.top) - int(pp.bottom)
+                    m.update(hw_ifm_w=hw_w, box_ifm_w=int(npu_op.ifm.shape.width), ifm_width0=int(npu_op.ifm.tiles.width_0),
+                             hw_ifm_h=hw_h, box_ifm_h=int(npu_op.ifm.shape.height), ifm_height0=int(npu_op.ifm.tiles.height_0))
             except Exception:
                 pass
             m.update(op_type=op.type.name, orig_type=op.original_type.name if op.original_type else None,
